@@ -443,6 +443,9 @@ def finish(pid, tier, spec, units, results, engines, known, t0):
             rc = 2
             for x in undecided:
                 print("UNDECIDED property=%s %s" % (pid, x))
+        else:
+            for x in undecided:     # for triage only: units that could not be decided in the same run
+                print("NOTE property=%s undecided part: %s" % (pid, x[:300]))
     elif undecided:
         rc = 2
         for x in undecided:
